@@ -102,13 +102,24 @@ def rule_queue(chk):
             fail="the queue is %s%s%s: order is not FIFO / producers can block / it is replaced later" % (qtype, " (bounded)" if bounded else "", "" if writers == [init] else ", reassigned in %s" % [w.fq for w in writers]))
     call = _tw(chk, "__call__")
     dparam = call.pos_params[1]
-    calls = [n for n in iter_own_nodes(call.node) if isinstance(n, ast.Call)]
-    ok = len(calls) == 1 and isinstance(calls[0].func, ast.Attribute) and calls[0].func.attr in ("put", "put_nowait") and common.is_self_attr(calls[0].func.value, qa) \
-        and len(calls[0].args) == 1 and isinstance(calls[0].args[0], ast.Name) and calls[0].args[0].id == dparam and not calls[0].keywords \
-        and not stores_to_name(call, dparam)
-    branches = [n for n in iter_own_nodes(call.node) if isinstance(n, (ast.If, ast.Try, ast.While, ast.For, ast.Return))]
-    chk.req(ok and not branches, "C19.queue", "ThreadedWriter.__call__:only-enqueues-its-argument", chk.where(call),
-            good="self.%s.put(%s) and nothing else" % (qa, dparam), fail="__call__ does more/less than one unconditional put of its unchanged argument")
+    ccfg = ctx.cfg(call)
+    puts = [(n, c) for n in ccfg.live for c, m in calls_in_node(n) if isinstance(c.func, ast.Attribute) and c.func.attr in ("put", "put_nowait") and common.is_self_attr(c.func.value, qa)]
+    problems = []
+    for n, c in puts:
+        if not (len(c.args) == 1 and isinstance(c.args[0], ast.Name) and c.args[0].id == dparam and not c.keywords):
+            problems.append("the queue is given %s, not just the message itself" % unparse(c)[:60])
+    if stores_to_name(call, dparam):
+        problems.append("the message parameter is rebound before it is enqueued")
+    rng = ccfg.count_range(ccfg.entry, [ccfg.exit], lambda x: sum(1 for n, c in puts if n is x))
+    if rng is None or rng[0] < 1:
+        guards = sorted({unparse(t.exprs[0])[:50] for x in ccfg.live if x.kind == "return" or any(s_ is ccfg.exit for s_, _l in x.succ)
+                         for t, lab in ccfg.guards_of(x) if t.kind == "test"})
+        problems.append("a path through __call__ returns without enqueuing the message (depends on %s): a message accepted from the logging thread is silently dropped -- "
+                        "e.g. one logged between the moment that condition changes and the moment the writer is unregistered" % (guards or "nothing"))
+    elif rng[1] > 1:
+        problems.append("a message can be enqueued %s times" % (rng,))
+    chk.req(not problems, "C19.queue", "ThreadedWriter.__call__:only-enqueues-its-argument", chk.where(call),
+            good="self.%s.put(%s) exactly once on every path" % (qa, dparam), fail="; ".join(problems), sites=len(ccfg.live))
     return qa
 
 
@@ -321,6 +332,17 @@ def rule_thread_and_contain(chk, qa, itemvars):
     regs = [n for n in scfg.live for c, m in calls_in_node(n) if isinstance(c.func, ast.Name) and c.func.id in ("addDestination", "add_destination", "add_destinations")
             and c.args and isinstance(c.args[0], ast.Name) and c.args[0].id == "self"]
     okt = okt and len(starts) == 1 and bool(regs) and scfg.precedes(starts, regs)[0] and scfg.count_range(scfg.entry, [scfg.exit], lambda x: 1 if x in starts else 0) == (1, 1)
+    # nobody else creates or starts a reader thread
+    for m_ in set(st.cls.methods.values()):
+        if m_ is st:
+            continue
+        for x in iter_own_nodes(m_.node):
+            if isinstance(x, ast.Call) and (any(t.kind == "ext" and t.ref == "threading.Thread" for t in ctx.cg.typer.resolve_call(m_, x))
+                                            or (isinstance(x.func, ast.Attribute) and x.func.attr == "start" and tattr and common.is_self_attr(x.func.value, tattr))):
+                chk.bad("C19.thread", "ThreadedWriter:reader-threads-started-only-by-startService", chk.where(m_, x.lineno),
+                        "%s creates / starts a reader thread (%s): outside startService nothing bounds their number to one per running service -- a thread started while the service is stopped "
+                        "(or beside a live one after the next startService) makes two threads take messages off the same queue, so deliveries are no longer made by one thread in order"
+                        % (m_.name, unparse(x)[:50]))
     chk.req(okt, "C19.thread", "ThreadedWriter.startService:one-reader-thread-started-before-registration", chk.where(st),
             good="Thread(target=self._reader) created and started once, then the writer is registered",
             fail="startService does not create exactly one reader thread and start it before registering the writer")
